@@ -188,6 +188,16 @@ def resolve(label: str, keys) -> str:
     return DEFAULT
 
 
+def known_namespaces(file_keys, model):
+    """Namespaces that exist: the top-level keys of the file, and every namespace something was ever stored in (it
+    stays in existence when it becomes empty again: its store goes on returning nothing, not another namespace)."""
+    if file_keys is None and not model:
+        return None
+    out = list(file_keys or ())
+    out += [ns for ns in model if ns not in out]
+    return tuple(out)
+
+
 def m_copy(model):
     return {ns: {p: dict(f) for p, f in pm.items()} for ns, pm in model.items()}
 
@@ -210,6 +220,8 @@ def m_apply(model, ns, op, ksets):
             return m, ('none',)
         return model, ('absent',)
     if kind == 'delete_all':
+        if ns not in model:
+            return model, ('none',)  # nothing was ever stored there: the namespace does not come into existence
         pm.clear()
         return m, ('none',)
     if kind == 'get':
@@ -394,7 +406,7 @@ def observe(world: World, stores, model, keys):
     """Every store's get_all / get / get_resolving_keys against the model.
     -> None | (kind, detail, label)"""
     for label, store in stores.items():
-        exp = m_norm(model).get(resolve(label, keys), {})
+        exp = m_norm(model).get(resolve(label, known_namespaces(keys, model)), {})
         for op, expect in (
             [(('get_all', label), ('value', exp))]
             + [(('get', label, i), ('value', exp.get(PEERS[i]))) for i in range(len(PEERS))]
@@ -433,7 +445,7 @@ def alphabet(cfg: str, seed: int):
 def step_model(world, model, op, ksets):
     """Model transition for `op` given the file as it is now -> (model', expect, target ns)."""
     st, keys = world.raw()
-    ns = resolve(op[1], keys if st == 'ok' else None)
+    ns = resolve(op[1], known_namespaces(keys if st == 'ok' else None, model))
     m, expect = m_apply(model, ns, op, ksets)
     return m, expect, ns
 
